@@ -6,7 +6,8 @@ default argument or a cache breaks exactly that - and with it every "for every h
 *previous* instance (or session) now matters.  The probe runs one fixed, residue-rich scenario
 
     session 1 (peer proposes hold 3, UPDATE, REST send, half a message left in the receive buffer, peer drops),
-    session 2 (default OPEN, UPDATE, a hostile header -> the agent closes), session 3 (handshake, REST statistic)
+    session 2 (default OPEN, UPDATE, a hostile header -> the agent closes), session 3 (handshake, REST statistic),
+    session 4 (the peer returns without capabilities and sends a 2-octet-AS UPDATE)
 
 in instance A and again in a fresh instance B of the same process, and demands
 
@@ -30,6 +31,8 @@ def _messages():
     m['@stat'] = ('GET', '/v1/peer/<ip>/statistic', None)
     m['@state'] = ('GET', '/v1/peer/<ip>/state', None)
     m['HALF'] = m['UPD'][:25]
+    from .alphabet import simple_update
+    m['UPD_AS2'] = simple_update(65002, as4=False)      # 2-octet AS_PATH: what a peer without the 4-octet capability sends
     return m
 
 
@@ -40,6 +43,8 @@ SCENARIO = [
     ('TICK', 0), ('CONN_OK', 0), ('RX', 0, 'OPEN_OK'), ('RX', 0, 'KA'), ('RX', 0, 'UPD'), ('REST', 'send_update2'), ('REST', 'stat'),
     ('RX', 0, 'BAD_MARKER'), ('CLOSE_DONE', 0),
     ('TICK', 0), ('CONN_OK', 0), ('RX', 0, 'OPEN_OK'), ('RX', 0, 'KA'), ('RX', 0, 'UPD'), ('REST', 'stat'), ('REST', 'state'),
+    # session 4: the peer comes back without any capability (2-octet AS numbers): what sessions 1-3 negotiated is gone
+    ('PEER_CLOSE', 0), ('TICK', 0), ('CONN_OK', 0), ('RX', 0, 'OPEN_NOOPT'), ('RX', 0, 'KA'), ('RX', 0, 'UPD_AS2'), ('REST', 'state'),
 ]
 SESSION_STARTS = (1, 10, 19)       # index of the TICK that starts each session
 
@@ -87,6 +92,10 @@ def _run(cfg):
                 v.append(('session-independence|the same handshake is handled differently in a later session of the same agent',
                           {'step_in_session': k, 'event': x[0], 'session_2': repr(x[1:3])[:500], 'session_3': repr(y[1:3])[:500]}))
                 break
+        last_upd = a[len(SCENARIO) - 2]
+        if not any(e[0] == 'cb' and e[1] == 'update_received' for e in last_upd[1]):
+            v.append(('session-independence|a peer that returns without the capabilities of the earlier sessions is still treated as having them',
+                      {'event': last_upd[0], 'observed': repr(last_upd[1])[:400]}))
         if a[s2 + 4][2] != 'ESTABLISHED' or a[s3 + 4][2] != 'ESTABLISHED':
             v.append(('session-independence|a session after one that ended with unread bytes / an error does not reach Established',
                       {'session_2': a[s2 + 4][2], 'session_3': a[s3 + 4][2]}))
